@@ -38,7 +38,9 @@ def cases(tier, seed):
                     out.append({"kind": "exhaustive", "ns": ns, "no": no, "mode": mode, "s": int(rng.integers(1 << 30))})
     nrand = 480 if tier == "quick" else 80000
     for j in range(nrand):
-        out.append({"kind": "random", "ns": int(rng.integers(4, 13)), "no": int(rng.integers(1, 9)) if j % 2 else int(rng.integers(4, 9)),
+        big = j % 3 == 2      # fragments of 9-20 atoms of which most are declared identical: few, high-numbered atoms are left to append
+        out.append({"kind": "random", "ns": int(rng.integers(4, 13)) if not big else int(rng.integers(14, 24)),
+                    "no": (int(rng.integers(1, 9)) if j % 2 else int(rng.integers(4, 9))) if not big else int(rng.integers(9, 21)), "big_map": big,
                     "mode": ["default", "shared", "repeat"][j % 3],
                     "s": int(rng.integers(1 << 30)), "override": atomsgen.KNAMES[(j // 2) % 4] if j % 2 == 0 else None})
     # structures with more than 1e5 / 2e5 atoms: atom indices are large numbers (float tolerances, packed keys, narrow
@@ -259,7 +261,7 @@ def run_case(case, ctx):
         if case["ns"] >= 3 and case["no"] >= 2:
             ctx.sample({"self": atomsgen.describe(a), "other": atomsgen.describe(o), "mode": case["mode"], "identity_maps": "all %d partial injections" % len(maps)})
     else:
-        k = int(rng.integers(0, min(case["ns"], case["no"]) + 1))
+        k = int(rng.integers(0, min(case["ns"], case["no"]) + 1)) if not case.get("big_map") else int(rng.integers(case["no"] // 2, min(case["ns"], case["no"] - 1) + 1))
         src = [int(x) for x in rng.choice(case["no"], size=k, replace=False)]
         dst = [int(x) for x in rng.choice(case["ns"], size=k, replace=False)]
         idx_map = dict(zip(src, dst))
